@@ -572,6 +572,23 @@ class SV:
     def cosh(s):
         return SV(s._hyp()[1])
 
+    def fmod(s, c):
+        """C fmod(x, c) for a positive constant c: r = x - k*c with integer k, |r| < c, sign(r) = sign(x)."""
+        cz = SV.lift(c).e
+        ctx = cur()
+        r = uf("FMOD", 2)(s.e, cz)
+        k = z3.Function("FMODK", z3.RealSort(), z3.RealSort(), z3.IntSort())(s.e, cz)
+        ctx.add_side(z3.And(s.e == z3.ToReal(k) * cz + r, z3.If(s.e >= 0, z3.And(r >= 0, r < cz), z3.And(r <= 0, r > -cz))))
+        return SV(r)
+
+    def __mod__(s, c):
+        cz = SV.lift(c).e
+        ctx = cur()
+        r = uf("PYMOD", 2)(s.e, cz)
+        k = z3.Function("PYMODK", z3.RealSort(), z3.RealSort(), z3.IntSort())(s.e, cz)
+        ctx.add_side(z3.And(s.e == z3.ToReal(k) * cz + r, r >= 0, r < cz))
+        return SV(r)
+
     def log1p(s):
         return (1 + s).log()
 
